@@ -8,14 +8,28 @@
                     (all listings, every tag, every (repository, digest) the case mentions, and a
                     walk from every tag through the manifests it references: a probe with a parent
                     asks for something the parent's bytes name);
-     3. [c_ops]     run through the mechanism ([c_mech]); for ReadOnly every read is also run
-                    directly on the underlying registry right afterwards -> [c_direct];
-     4. [c_threads] (immutable-tags mode only) a batch of goroutines, each running its own list;
+     3. [c_ops]     run through the mechanism ([c_mech]; the wrappers are given the registry under
+                    the dynamic type [c_wrap]); for ReadOnly every read is also run directly on
+                    the underlying registry right afterwards -> [c_direct];
+     4. [c_threads] (immutable-tags mode only) a batch of goroutines, each running its own list
+                    (the harness may delay single operations to aim one goroutine's operation
+                    at the span of another's; the delays are not part of the case);
      5. the probes again -> [c_after]. *)
 From Coq Require Import String.
 From OCI Require Export Obs.MemObs Model.Immutable.
 
 Inductive mech := MReadOnly | MImmutable | MImmTags.
+
+(* How the *ocimem.Registry is handed to the wrapper.  ReadOnly and Immutable take ANY
+   ociregistry.Interface; the harness hands them the registry as it is, inside a
+   *ociregistry.Funcs whose every member forwards to it (the documented way to build an
+   Interface), inside a struct that embeds it as an ociregistry.Interface, or behind
+   ocifilter.Select with a predicate that accepts every repository.  Each of these forwards every
+   call unchanged, so the model of the wrapped value is the registry's own step function
+   ([wrapped]); what the case records is the dynamic type the wrapper under test was given (a
+   wrapper that treats some dynamic type specially disagrees with the model on those cases). *)
+Inductive wrapping := WDirect | WFuncs | WEmbed | WSelect.
+Definition wrapped {St} (w : wrapping) (under : registry St) : registry St := under.
 
 Record probe := { p_parent : option N; p_op : op }.
 
@@ -23,6 +37,7 @@ Definition ev := (op * oresult)%type.
 
 Record case := {
   c_mech : mech;
+  c_wrap : wrapping;
   c_under_imm : bool;
   c_orc : oracles;
   c_setup : list op; c_setup_obs : list oresult;
@@ -54,8 +69,8 @@ Definition under_step (c : case) : registry state := mem14 (c_orc c) (cfg_imm c)
 
 Definition mech_step (c : case) : registry state :=
   match c_mech c with
-  | MReadOnly => forget (ro_step (under_step c))
-  | MImmutable => forget (imm_step (under_step c) (hash14 (c_orc c)))
+  | MReadOnly => forget (ro_step (wrapped (c_wrap c) (under_step c)))
+  | MImmutable => forget (imm_step (wrapped (c_wrap c) (under_step c)) (hash14 (c_orc c)))
   | MImmTags => under_step c
   end.
 
@@ -82,6 +97,18 @@ Fixpoint replace_nth {A} (i : nat) (a : A) (l : list A) : list A :=
 
 Definition is_nil {A} (l : list A) : bool := match l with [] => true | _ => false end.
 
+(* [existsb] and [&&] written with [if]: vm_compute evaluates the arguments of a function before
+   the call, so [f a || existsb f l] would visit every branch of the search even after a success,
+   and [agrees ob r && search ...] would search below a step the model does not reproduce *)
+Fixpoint existsb_lazy {A} (f : A -> bool) (l : list A) : bool :=
+  match l with
+  | [] => false
+  | a :: l' => if f a then true else existsb_lazy f l'
+  end.
+
+Lemma existsb_lazy_eq {A} (f : A -> bool) l : existsb_lazy f l = existsb f l.
+Proof. induction l as [|a l IH]; cbn; [reflexivity|]. rewrite IH. now destruct (f a). Qed.
+
 (* is there an interleaving of the threads that the model reproduces, after which [k] holds? *)
 Fixpoint lin_search (step : registry state) (fuel : nat) (ths : list (list ev)) (st : state)
          (k : state -> bool) : bool :=
@@ -90,11 +117,11 @@ Fixpoint lin_search (step : registry state) (fuel : nat) (ths : list (list ev)) 
     match fuel with
     | O => false
     | S f =>
-        existsb (fun i =>
+        existsb_lazy (fun i =>
           match nth i ths [] with
           | (o, ob) :: th =>
               let '(st', r) := step st o in
-              agrees ob r && lin_search step f (replace_nth i th ths) st' k
+              if agrees ob r then lin_search step f (replace_nth i th ths) st' k else false
           | [] => false
           end) (seq 0 (length ths))
     end.
@@ -353,11 +380,49 @@ Definition clause_keep (c : case) : bool :=
                            (combine (c_probes c) (justified c))) (c_before c) (c_after c)
   end.
 
+(* ---- immutable-tags mode: what a tagged manifest names directly is retrievable, in every
+        snapshot ---- *)
+
+(* is probe [o] a request for one of the references [refs] that the registry insists on when the
+   manifest naming them is pushed: a layer, the config, an index entry (not the subject, which
+   may dangle)? *)
+Definition kid_probe (r : bytes) (refs : list (refkind * desc)) (o : op) : bool :=
+  existsb (fun kd =>
+    match fst kd, o with
+    | KBlob, GetBlob r' d => beqb r' r && beqb d (d_digest (snd kd))
+    | KManifest, GetManifest r' d => beqb r' r && beqb d (d_digest (snd kd))
+    | _, _ => false
+    end) refs.
+
+Definition is_read_ok (ob : oresult) : bool :=
+  match ob with OOk (RRead _ _) => true | _ => false end.
+
+(* in one snapshot: whenever a tag answers with a manifest, every probe of the snapshot that asks
+   for a direct reference of that manifest is answered with content.  Unlike [clause_keep] this
+   does not need the reference to have been seen earlier: it covers tags bound during the history
+   and during the concurrent batch (a delete that raced a tagged push and won after the push had
+   been let through leaves exactly such a hole). *)
+Definition closed_snapshot (orc : oracles) (ps : list op) (obs : list oresult) : bool :=
+  let evs := combine ps obs in
+  forallb (fun e : ev =>
+    match e with
+    | (GetTag r _, OOk (RRead de data)) =>
+        match manifest_refs (orc_img orc) (orc_idx orc) (d_media de) data with
+        | None => true
+        | Some refs => forallb (fun e' : ev => implb (kid_probe r refs (fst e')) (is_read_ok (snd e'))) evs
+        end
+    | _ => true
+    end) evs.
+
+Definition clause_closed (c : case) : bool :=
+  closed_snapshot (c_orc c) (probe_ops c) (c_before c)
+  && closed_snapshot (c_orc c) (probe_ops c) (c_after c).
+
 Definition obs_ok (c : case) : bool :=
   match c_mech c with
   | MReadOnly => clause_readonly c
   | MImmutable => clause_tags c && deletes_denied (c_ops c) (c_obs c) && clause_keep c
-  | MImmTags => clause_tags c && clause_keep c
+  | MImmTags => clause_tags c && clause_keep c && clause_closed c
   end.
 
 (* ---- non-trivial: the case attempts the change the mechanism must prevent ---- *)
@@ -411,7 +476,7 @@ Definition where_bad (c : case) :=
    first_bad 0 (c_after c) (snd (run under s2 (probe_ops c)))).
 
 From Coq Require Import Lia.
-From OCI Require Import Proofs.MemBasics Proofs.MemInv Proofs.MemImmutable Proofs.FilterSelect
+From OCI Require Import Proofs.MemBasics Proofs.MemInv Proofs.MemImmutable Proofs.MemTagKids Proofs.FilterSelect
   Proofs.Immutable Proofs.ImmutableMem.
 (* ------------------------------------------------------------------------------------ *)
 (* corr_sound                                                                           *)
@@ -690,10 +755,10 @@ Proof.
     exists []. split; [now constructor|]. split; [reflexivity | exact H].
   - destruct (forallb is_nil ths) eqn:En.
     { exists []. split; [now constructor|]. split; [reflexivity | exact H]. }
-    apply existsb_exists in H as [i [_ Hi]].
+    rewrite existsb_lazy_eq in H. apply existsb_exists in H as [i [_ Hi]].
     destruct (nth i ths []) as [|[o ob] th] eqn:Eth; [discriminate|].
     destruct (step st o) as [st' r] eqn:Es.
-    apply andb_true_iff in Hi as [Hag Hrec].
+    destruct (agrees ob r) eqn:Hag; [|discriminate]. rename Hi into Hrec.
     destruct (IH _ _ Hrec) as [m [Hil [Hall Hk]]].
     exists ((o, ob) :: m). split; [eapply il_take; eauto|].
     cbn [map fst snd run]. rewrite Es. rewrite final_cons, Es. cbn [fst].
@@ -1272,7 +1337,7 @@ Proof.
   intros Hm H. apply model_agrees_facts in H. cbn zeta in H.
   destruct H as (Hwf & Hreads & Hsetup & Hbefore & Hobs & Hdirect & Hthreads & M & Hil & HM & Hafter).
   rewrite Hthreads in Hil by congruence. apply interleave_nil in Hil. subst M. cbn [map] in *.
-  unfold mech_step, under_step, cfg_imm in *. rewrite Hm in *.
+  unfold mech_step, under_step, cfg_imm, wrapped in *. rewrite Hm in *.
   unfold clause_readonly. apply andb_true_iff. split.
   - eapply ro_events_sound; [exact Hobs | now apply Hdirect].
   - unfold final in Hafter at 1. cbn [run fst] in Hafter. rewrite rstep_final in Hafter.
@@ -1451,7 +1516,7 @@ Proof.
   destruct H as (Hwf & Hreads & Hsetup & Hbefore & Hobs & _ & Hthreads & M & Hil & HM & Hafter).
   pose proof (Hthreads ltac:(congruence)) as Hth. rewrite Hth in Hil.
   pose proof (interleave_nil _ Hil) as ->. cbn [map] in *.
-  unfold mech_step, under_step, cfg_imm in *. rewrite Hm in *.
+  unfold mech_step, under_step, cfg_imm, wrapped in *. rewrite Hm in *.
   set (o := c_orc c) in *. set (imm := c_under_imm c) in *.
   set (s1 := final (mem14 o imm) init (c_setup c)) in *.
   set (s2 := final (wst o imm) s1 (c_ops c)) in *.
@@ -1605,8 +1670,70 @@ Proof.
   - apply IH.
 Qed.
 
+(* ---- immutable-tags mode: a snapshot of a reachable state is closed under the direct references
+        of tagged manifests ---- *)
+
+Lemma In_combine_nth {A B} (l1 : list A) (l2 : list B) x y :
+  In (x, y) (combine l1 l2) -> exists i, nth_error l1 i = Some x /\ nth_error l2 i = Some y.
+Proof.
+  revert l2; induction l1 as [|a l1 IH]; intros [|b l2] H; cbn in H; try contradiction.
+  destruct H as [H|H].
+  - injection H as -> ->. now exists 0%nat.
+  - destruct (IH _ H) as [i Hi]. now exists (S i).
+Qed.
+
+Section Closed.
+  Variable o : oracles.
+  Local Notation mstep := (mem14 o true).
+
+  Lemma closed_snapshot_sound st ps obs :
+    (forall r, tagkids (orc_img o) (orc_idx o) (repo_of st r)) ->
+    forallb is_read_op ps = true ->
+    agrees_all obs (snd (run mstep st ps)) = true ->
+    closed_snapshot o ps obs = true.
+  Proof.
+    intros HK Hr Hag. unfold closed_snapshot. cbn zeta.
+    assert (Hev : forall op ob, In (op, ob) (combine ps obs) -> agrees ob (snd (mstep st op)) = true).
+    { intros op ob Hin. destruct (In_combine_nth _ _ _ _ Hin) as [i [Hp Hb]].
+      destruct (agrees_all_nth _ _ _ _ Hag Hb) as [m [Hm Ha]].
+      rewrite (run_reads_nth o true _ st i _ Hr Hp) in Hm. now injection Hm as <-. }
+    apply forallb_forall. intros [op ob] Hin.
+    destruct op; try reflexivity. destruct ob as [[]| | | |]; try reflexivity.
+    pose proof (Hev _ _ Hin) as Hg.
+    destruct (gettag_obs o true st _ _ _ _ Hg) as [tde [bl [Ht [Hm [-> ->]]]]].
+    cbn [blob_desc d_media].
+    destruct (manifest_refs (orc_img o) (orc_idx o) (b_media bl) (b_data bl)) as [refs|] eqn:Er; [|reflexivity].
+    apply forallb_forall. intros [op' ob'] Hin'. cbn [fst snd].
+    destruct (kid_probe r refs op') eqn:En; [|reflexivity].
+    cbn [implb]. pose proof (Hev _ _ Hin') as Hg'.
+    unfold kid_probe in En.
+    apply existsb_exists in En as [[k cd] [Hink Hk]]. cbn [fst snd] in Hk.
+    rewrite itag_repo_of in Ht. rewrite iman_repo_of in Hm.
+    pose proof (HK r _ _ _ _ _ Ht Hm Er Hink) as Hs. unfold stored_ref in Hs. cbn [fst snd] in Hs.
+    unfold mem14 in Hg'.
+    destruct k; destruct op'; try discriminate;
+      apply andb_true_iff in Hk as [H1 H2]; apply beqb_eq in H1, H2; subst.
+    - rewrite get_blob_res, iblob_repo_of in Hg'.
+      destruct (alookup (d_digest cd) (blobs (repo_of st r))) as [b0|]; [|contradiction].
+      apply agrees_model_read in Hg'. now subst ob'.
+    - rewrite get_manifest_res, iman_repo_of in Hg'.
+      destruct (alookup (d_digest cd) (manifests (repo_of st r))) as [b0|]; [|contradiction].
+      apply agrees_model_read in Hg'. now subst ob'.
+  Qed.
+
+  Hypothesis Hwf : orc_wf o = true.
+
+  Lemma tagkids_reach h r : tagkids (orc_img o) (orc_idx o) (repo_of (final mstep init h) r).
+  Proof.
+    apply (history_tagkids (hash14 o) (orc_vd o) (orc_vr o) (orc_vt o) (orc_img o) (orc_idx o)
+             {| immutable_tags := true |} eq_refl (hash14_inj o Hwf) h init).
+    - apply inv_init.
+    - intros r'. apply tagkids_init.
+  Qed.
+End Closed.
+
 Lemma corr_immtags c : c_mech c = MImmTags -> model_agrees c = true ->
-  clause_tags c && clause_keep c = true.
+  clause_tags c && clause_keep c && clause_closed c = true.
 Proof.
   intros Hm H. apply model_agrees_facts in H. cbn zeta in H.
   destruct H as (Hwf & Hreads & Hsetup & Hbefore & Hobs & _ & _ & M & Hil & HM & Hafter).
@@ -1631,7 +1758,13 @@ Proof.
     rewrite !run_snd_app. fold s1.
     rewrite (run_reads_state o true (probe_ops c) s1 Hreads). fold s2. fold s3.
     repeat (apply agrees_all_app'; [assumption|]). assumption. }
-  apply andb_true_iff. split.
+  apply andb_true_iff. split; [apply andb_true_iff; split|].
+  3: { (* both snapshots are snapshots of reachable states *)
+    unfold clause_closed. apply andb_true_iff. split.
+    - apply (closed_snapshot_sound o s1); [|exact Hreads | exact Hbefore].
+      intros r. apply (tagkids_reach o Hwf).
+    - apply (closed_snapshot_sound o s3); [|exact Hreads | exact Hafter].
+      intros r. unfold s3, s2, s1. rewrite <- !final_app. apply (tagkids_reach o Hwf). }
   - apply (clause_tags_from_linearization c M Hil). rewrite Hm. exact Hal.
   - unfold clause_keep. rewrite Hm.
     assert (Lj : length (justified c) = length (c_probes c)).
